@@ -310,3 +310,128 @@ func (p *Program) secondFieldTable(rel, name string) []string {
 }
 
 var _ = ssa.Value(nil)
+
+// fileRedirectTable: the canonical-path redirects of the file server as a decision table (E10, string domain).
+// serveFile is evaluated for a directory requested without trailing slash and a file requested with one, each under
+// a path that starts with one, two or three slashes (//host/x is where an open redirect would come from).  The
+// Location handed to http.Redirect must start with exactly one '/', and be the request path with the trailing slash
+// added or removed.
+func fileRedirectTable(h H) (bad string, ncases int) {
+	fn := h.p.Func(sfPkg, "FileServer.serveFile")
+	if fn == nil {
+		return "staticfiles.FileServer.serveFile not found", 0
+	}
+	fsT := fn.Params[0].Type()
+	reqT := fn.Params[2].Type().(*types.Pointer).Elem()
+	hdrT, _ := types.Unalias(h.p.typeByName("net/http", "Header")).Underlying().(*types.Map)
+	host, name := atom{sym: "host"}, atom{sym: "name"}
+	sl := func(n int) atom { return atom{lit: strings.Repeat("/", n)} }
+	type rc struct {
+		desc  string
+		path  []atom
+		isDir bool
+		want  []atom
+	}
+	cases := []rc{
+		{"directory /name", []atom{sl(1), name}, true, []atom{sl(1), name, sl(1)}},
+		{"directory //host/name", []atom{sl(2), host, sl(1), name}, true, []atom{sl(1), host, sl(1), name, sl(1)}},
+		{"directory ///host", []atom{sl(3), host}, true, []atom{sl(1), host, sl(1)}},
+		{"file /name/", []atom{sl(1), name, sl(1)}, false, []atom{sl(1), name}},
+		{"file //host/name/", []atom{sl(2), host, sl(1), name, sl(1)}, false, []atom{sl(1), host, sl(1), name}},
+		{"file ///host/", []atom{sl(3), host, sl(1)}, false, []atom{sl(1), host}},
+	}
+	for _, c := range cases {
+		c := c
+		ncases++
+		fobj := &aobj{name: "file", typ: types.Typ[types.Int], f: map[string]aval{}}
+		info := &aobj{name: "info", typ: types.Typ[types.Int], f: map[string]aval{}}
+		var urlObj *aobj
+		var targets []aval
+		respHdr := amap{&amapData{vals: map[string]aval{}, keys: map[string]aval{}, typ: hdrT}}
+		env := &absEnv{globals: map[string]*aobj{}, maxSteps: 200000}
+		env.ext = func(callee string, args []aval) (aval, bool) {
+			switch {
+			case callee == "invoke:Open":
+				return atuple{aiface{aptr{fobj, ""}, types.Typ[types.Int]}, anil{}}, true
+			case callee == "invoke:Stat":
+				return atuple{aiface{aptr{info, ""}, types.Typ[types.Int]}, anil{}}, true
+			case callee == "invoke:IsDir":
+				return abool(c.isDir), true
+			case callee == "invoke:Close":
+				return anil{}, true
+			case callee == "os.IsNotExist", callee == "os.IsPermission", callee == "os.SameFile":
+				return abool(false), true
+			case callee == "invoke:Header":
+				return respHdr, true
+			case callee == "(*net/http.Request).Context":
+				return aiface{aptr{&aobj{name: "ctx", typ: types.Typ[types.Int], f: map[string]aval{}}, ""}, types.Typ[types.Int]}, true
+			case callee == "invoke:Value":
+				return aiface{astr("/"), types.Typ[types.String]}, true
+			case callee == "(*net/url.URL).String":
+				if p, ok := args[0].(aptr); ok {
+					return env.load(p.obj, joinPath(p.path, "Path")), true
+				}
+			case callee == "net/http.Redirect":
+				targets = append(targets, args[2])
+				return atuple{}, true
+			case callee == "net/http.ServeContent":
+				targets = append(targets, astr("(content served instead of a redirect)"))
+				return atuple{}, true
+			}
+			return nil, false
+		}
+		mk := func() []aval {
+			targets = nil
+			fsv := astruct{map[string]aval{"Root": aiface{aptr{&aobj{name: "root", typ: types.Typ[types.Int], f: map[string]aval{}}, ""}, types.Typ[types.Int]}}}
+			if st, ok := underlying(fsT).(*types.Struct); ok {
+				for i := 0; i < st.NumFields(); i++ {
+					switch st.Field(i).Name() {
+					case "Hide", "IndexPages":
+						fsv.f[st.Field(i).Name()] = anil{}
+					}
+				}
+			}
+			reqHdr := amap{&amapData{vals: map[string]aval{}, keys: map[string]aval{}, typ: hdrT}}
+			urlObj = &aobj{name: "url", typ: types.Typ[types.Int], f: map[string]aval{}}
+			req := &aobj{name: "request", typ: reqT, f: map[string]aval{"Header": reqHdr}}
+			req.in = func(o *aobj, path string, t types.Type) aval {
+				if path == "URL" {
+					urlObj.typ = underlying(t).(*types.Pointer).Elem()
+					urlObj.in = func(o *aobj, path string, t types.Type) aval {
+						if path == "Path" {
+							return mkStr(c.path)
+						}
+						return aunk{"url field " + path}
+					}
+					return aptr{urlObj, ""}
+				}
+				return aunk{"request field " + path}
+			}
+			return []aval{fsv, aiface{aptr{&aobj{name: "writer", typ: types.Typ[types.Int], f: map[string]aval{}}, ""}, types.Typ[types.Int]}, aptr{req, ""}}
+		}
+		env.runForks(fn, mk, func(res aval, und string, _ int) bool {
+			if und != "" {
+				bad = c.desc + ": undecided — " + und
+				return false
+			}
+			if len(targets) != 1 {
+				bad = fmt.Sprintf("%s: %d responses issued, one redirect expected", c.desc, len(targets))
+				return false
+			}
+			got, ok := toAtoms(targets[0])
+			if !ok {
+				bad = c.desc + ": the redirect target is " + describeAval(targets[0])
+				return false
+			}
+			if renderAtoms(got) != renderAtoms(c.want) {
+				bad = fmt.Sprintf("%s: redirects to %s, specification says %s (exactly one leading slash keeps the redirect on this origin)", c.desc, renderAtoms(got), renderAtoms(c.want))
+				return false
+			}
+			return true
+		})
+		if bad != "" {
+			return
+		}
+	}
+	return
+}
